@@ -97,9 +97,32 @@ def _classes(at: set[str]) -> frozenset:
     return frozenset(c)
 
 
+def resolve_helper(repo, modname, f, generic):
+    """a function whose whole body is `return helper(...)` (helper in the same module) is judged by the helper; the
+    generic routine may arrive there as an argument - returns (function to analyse, name the generic routine has in it)"""
+    body = [b for b in f.node.body if not (isinstance(b, ast.Expr) and isinstance(b.value, ast.Constant))]
+    if len(body) == 1 and isinstance(body[0], ast.Return) and isinstance(body[0].value, ast.Call) and isinstance(body[0].value.func, ast.Name) and body[0].value.func.id != generic:
+        hf = repo.module(modname).funcs.get(body[0].value.func.id)
+        if hf is not None and hf.parent is None:
+            call = body[0].value
+            local = generic
+            for i_, a_ in enumerate(call.args):
+                if isinstance(a_, ast.Name) and a_.id == generic and i_ < len(hf.params):
+                    local = list(hf.params)[i_]
+            for k_ in call.keywords:
+                if isinstance(k_.value, ast.Name) and k_.value.id == generic and k_.arg:
+                    local = k_.arg
+            return hf, local
+    return f, generic
+
+
 def python_table(ctx: Ctx, f, generic):
     """{(class, solution-is-none) -> set of (status, form, objective kind)}"""
     table: dict = {}
+    pair_mod = PAIRS[f.name][0]
+    if generic is not None:
+        f, _ = resolve_helper(ctx.repo, pair_mod, f, generic)
+        ctx.touch(f)
     cfg = cfg_of(f.node)
     gv = GuardView(cfg)
 
@@ -114,7 +137,7 @@ def python_table(ctx: Ctx, f, generic):
             add(_classes(at), st, _form(s.arg("solution")), _objective_kind(s.arg("objective")))
     # passthrough returns of the generic routine's Result
     if generic is not None:
-        g = ctx.func(PAIRS[f.name][0], generic)
+        g = ctx.func(pair_mod, generic)
         gcfg = cfg_of(g.node)
         ggv = GuardView(gcfg)
         for n in own_nodes(f.node):
@@ -347,6 +370,44 @@ def run(ctx: Ctx):
             okd = any(acfg.dominates(kn, s_.node) for kn in knodes)
             ctx.ob("C12-O9", "R14 GATE", a, f"pair:{name} every Result of the adapter is built after the kernel ran", okd, "a verdict decided before the kernel is called is the adapter's own reasoning about the input; where it differs from the Python implementation's the two back-ends disagree", node=s_.call)
     ctx.floor("adapter Result sites", n_ad, 9)
+    # O9 (continued): after the kernel call, what the adapter branches on is the kernel's report (or the shape of the
+    # query: target given / forest allowed), never a budget or an input quantity the adapter reasons about itself
+    QUERY_SHAPE = {"target", "allow_forest", "directed"}
+    n_tests = 0
+    for name, a in sorted(adapters.items()):
+        acfg = cfg_of(a.node)
+        kcalls = [n for n in own_nodes(a.node) if isinstance(n, ast.Call) and isinstance(n.func, ast.Attribute) and isinstance(n.func.value, ast.Name) and n.func.value.id == "rust"]
+        if not kcalls:
+            continue
+        kn = acfg.stmt_node_containing(kcalls[0])
+        reach = acfg.forward(kn)
+        for n in own_nodes(a.node):
+            if isinstance(n, ast.If):
+                if not any(isinstance(x, ast.Return) for x in ast.walk(n)):
+                    continue
+            elif isinstance(n, ast.IfExp):
+                if "Status." not in ast.unparse(n):
+                    continue
+            else:
+                continue
+            try:
+                sn = acfg.stmt_node_containing(n.test)
+            except Exception:
+                continue
+            if sn.id not in reach or sn.id == kn.id:
+                continue
+            n_tests += 1
+            import builtins as _b
+
+            nm = {x for x in names_in(n.test) if not hasattr(_b, x)}
+            for v in list(nm):
+                defs = [x.value for x in own_nodes(a.node) if isinstance(x, ast.Assign) and len(x.targets) == 1 and isinstance(x.targets[0], ast.Name) and x.targets[0].id == v]
+                if defs and all("result" in names_in(d) for d in defs):
+                    nm.discard(v)
+                    nm.add("result")
+            okt = bool(nm) and nm <= QUERY_SHAPE | {"result"}
+            ctx.ob("C12-O9", "R7 PROVENANCE", a, f"pair:{name} `{ast.unparse(n.test)}` branches on the kernel's report", okt, f"the test reads {sorted(nm)}: a verdict inferred from a budget or an input quantity instead of the kernel's own flag differs from the kernel's whenever the inference is off by one (convergence on the last allowed sweep)", node=n)
+    ctx.floor("adapter verdict tests after the kernel call", n_tests, 12)
 
     # O7 the two PageRank loops stop on the same quantity (status near the iteration limit depends on it)
     prf = ctx.func("pagerank", "pagerank")
@@ -379,6 +440,8 @@ def run(ctx: Ctx):
     for wname, (wmod, generic) in sorted(WRAPPERS.items()):
         wf = ctx.func(wmod, wname)
         n_wr += 1
+        wf, generic = resolve_helper(repo, wmod, wf, generic)
+        ctx.touch(wf)
         wcfg = cfg_of(wf.node)
         wgv = GuardView(wcfg)
         init = [n for n in own_nodes(wf.node) if isinstance(n, (ast.Assign, ast.AnnAssign)) and ast.unparse(n.targets[0] if isinstance(n, ast.Assign) else n.target) == "adj"]
@@ -397,6 +460,14 @@ def run(ctx: Ctx):
         dele = [n for n in own_nodes(wf.node) if isinstance(n, ast.Call) and isinstance(n.func, ast.Name) and n.func.id == generic]
         okd = len(dele) >= 1 and all(any(ast.unparse(a_) in ("lambda s: adj[s]",) for a_ in d.args) for d in dele)
         ctx.ob("C12-O8", "R18 SIBLING-AGREEMENT (policy)", wf, f"{wname} delegates to {generic} with the successor lists it built", okd, "", node=dele[0] if dele else wf.node)
+        if wname != "dijkstra_edges" and dele:
+            # dijkstra_edges answers the all-distances query with its own loop; the others only repackage
+            gn = [wcfg.stmt_node_containing(d) for d in dele]
+            for n in own_nodes(wf.node):
+                if isinstance(n, ast.Return):
+                    rn = wcfg.node_of(n)
+                    okr = any(g_.id == rn.id or wcfg.dominates(g_, rn) for g_ in gn)
+                    ctx.ob("C12-O8", "R14 GATE", wf, f"{wname} returns nothing the generic routine did not compute", okr, f"`{ast.unparse(n)[:70]}` is reached without calling {generic}: an answer the wrapper works out by itself is a second implementation of the routine's corner cases (source == target, empty graph), and the kernel follows the routine's", node=n)
     ctx.floor("Python edge-list wrappers", n_wr, 6)
 
     # O6 the Rust kernel counts every occurrence of an edge; so must the Python bookkeeping
@@ -481,6 +552,50 @@ def _v_scc_wrapper_dedups(tree):
     M.replace_stmt(g, lambda s: isinstance(s, ast.Expr) and M.src_is(s.value, "adj[u].append(v)"), M.stmts("if v not in adj[u]:\n    adj[u].append(v)"))
 
 
+def _v_pagerank_adapter_status_from_budget(tree):
+    g = M.find_func(tree, "_pagerank_edges_rust")
+    M.replace_expr(g, lambda e: M.src_is(e, "result['converged']"), M.expr("result['iterations'] < max_iter"))
+
+
+def _t_pagerank_adapter_flag_local(tree):
+    g = M.find_func(tree, "_pagerank_edges_rust")
+    M.replace_stmt(g, lambda s: isinstance(s, ast.Assign) and M.src_is(s.targets[0], "status"), lambda s: M.stmts("done = result['converged']\nstatus = Status.OPTIMAL if done else Status.MAX_ITER"))
+
+
+_HELPER = """
+def _search_edges(search, n_nodes, edges, source, target):
+    adj: list[list[int]] = [[] for _ in range(n_nodes)]
+    for u, v in edges:
+        adj[u].append(v)
+%s
+    result = search(source, target, lambda s: adj[s])
+    if target is None:
+        return Result(sorted(result.solution), 0, result.iterations, result.evaluations)
+    return result
+"""
+_SHORTCUT = """
+    if not adj[source]:
+        if target is None:
+            return Result([source], 0, 1, 1)
+        return Result(None, float("inf"), 1, 1, Status.INFEASIBLE)
+"""
+
+
+def _share_search_body(tree, extra):
+    for nm, gen in (("bfs_edges", "bfs"), ("dfs_edges", "dfs")):
+        g = M.find_func(tree, nm)
+        g.body = M.stmts(f"return _search_edges({gen}, n_nodes, edges, source, target)")
+    tree.body.extend(M.stmts(_HELPER % extra))
+
+
+def _v_wrapper_dead_end_shortcut(tree):
+    _share_search_body(tree, _SHORTCUT)
+
+
+def _t_wrapper_shared_helper(tree):
+    _share_search_body(tree, "")
+
+
 def _v_topo_adapter_density_shortcut(tree):
     g = M.find_func(tree, "_topo_edges_rust")
     first = next(s for s in g.body if isinstance(s, ast.Assign) and M.src_has(s.value, "rust.topological_sort"))
@@ -539,6 +654,10 @@ VARIANTS = [
     M.Variant("Python PageRank stops on the largest single change, the kernel on the total change (original defect)", "solvor/pagerank.py", _v_pagerank_max_norm, "C12-O7"),
     M.Variant("Python SCC wrapper de-duplicates successors", "solvor/scc.py", _v_scc_wrapper_dedups, "C12-O8"),
     M.Variant("topological-sort adapter answers INFEASIBLE for dense edge lists without calling the kernel (seed C12-H)", AD, _v_topo_adapter_density_shortcut, "C12-O9"),
+    M.Variant("PageRank adapter infers its status from the iteration count instead of the kernel's converged flag (seed C12-I)", AD, _v_pagerank_adapter_status_from_budget, "C12-O9"),
+    M.Variant("twin: PageRank adapter reads the converged flag through a local", AD, _t_pagerank_adapter_flag_local, None),
+    M.Variant("bfs_edges/dfs_edges share a helper that answers a dead-end source without searching (seed C12-J)", "solvor/bfs.py", _v_wrapper_dead_end_shortcut, "C12-O8"),
+    M.Variant("twin: bfs_edges/dfs_edges share a helper that receives the generic routine as an argument", "solvor/bfs.py", _t_wrapper_shared_helper, None),
     M.Variant("twin: reformat adapters", AD, _t_reformat, None),
     M.Variant("twin: reformat rust/__init__", RI, _t_reformat, None),
 ]
